@@ -109,10 +109,16 @@ def run(ctx: Ctx) -> Outcome:
     if ctx.replay:
         return rtcheck.replay_outcome('C13', ctx, also=('C07',))
     scs = scenarios(ctx)
-    model_cov, tlc_scs = rtmodel.server_clients(ctx)
+    # TLC works on ServerClients.tla (JVM subprocesses) while the hand-made scenario families run in this process' worker pool
+    from concurrent.futures import ThreadPoolExecutor
+    with ThreadPoolExecutor(1) as ex:
+        f_sc = ex.submit(rtmodel.server_clients, ctx)
+        results = rtcheck.run_scenarios(scs)
+        model_cov, tlc_scs = f_sc.result()
     notes = []
+    results = list(results) + list(rtcheck.run_scenarios(tlc_scs))
     scs = scs + tlc_scs
-    out = rtcheck.validate('C13', scs, ctx, also=('C07',), extra_cov=model_cov)
+    out = rtcheck.validate('C13', scs, ctx, also=('C07',), extra_cov=model_cov, results=results)
     out.notes += notes
     out.coverage['exhaustive_part'] = 'all single-client scripts of <= 3 calls over {submit,status,result,cancel} x {own id A, second id B, unknown id}'
     out.assumptions = ['clients issue one request at a time per connection (the Compiler API is synchronous)',
